@@ -604,4 +604,4 @@ def m_rna_adjacent_unmerged(d):
     return bool(merged) and sorted(obs["missing"]) == sorted(merged) and sorted(obs["extra"]) == sorted(unmerged)
 
 
-MATCHERS = {"c17_rna_adjacent_unmerged": m_rna_adjacent_unmerged}
+MATCHERS = {}  # (the unmerged-RNA-row reading is accepted in compare(); m_rna_adjacent_unmerged is unused)
